@@ -16,7 +16,7 @@ import (
 
 // C18layout: fixed-offset decoding stays inside the checked length; sessions are not written by the round functions.
 func C18layout(p *load.Program, run *report.Run) {
-	run.Rule("fixed-layout", "DecodeRound3 first rejects any length other than round3PayloadLen; every data[lo:hi] it then takes has 0 <= lo <= hi <= that length, consecutive parts are adjacent, and the last part ends exactly at the length")
+	run.Rule("fixed-layout", "in DecodeRound3 every data[lo:hi] is taken where the length checks passed before it (len(data) < K, len(data) != K with an error return) guarantee at least hi bytes; a check rejects every length other than round3PayloadLen; consecutive parts are adjacent and the last part ends exactly at that length")
 	run.Rule("session-immutable", "the round functions and the session encoders never store through the session state they are given")
 	pkg := p.ByPath[load.Module+"/sha2pc"]
 	_, fd := dispatch.FindFunc(p, "sha2pc", "", "DecodeRound3")
@@ -30,24 +30,39 @@ func C18layout(p *load.Program, run *report.Run) {
 	var prevHi int64
 	slices := 0
 	bad := ""
-	for idx, st := range effectiveQ(pkg.TypesInfo, fd.Body.List) {
-		// the length guard must come first
-		if idx == 0 {
-			if ifs, ok := st.(*ast.IfStmt); ok {
-				if be, ok := ifs.Cond.(*ast.BinaryExpr); ok && be.Op == token.NEQ && exprNorm(fd, be.X) == "len($0)" {
+	// minLen: what the length checks passed so far guarantee about len(data); total: the exact length once
+	// a check `len(data) != K` has been passed.  A part may only be taken where a check covers it.
+	minLen := int64(0)
+	for _, st := range effectiveQ(pkg.TypesInfo, fd.Body.List) {
+		if ifs, ok := st.(*ast.IfStmt); ok && ifs.Init == nil && len(ifs.Body.List) > 0 {
+			if _, isRet := ifs.Body.List[len(ifs.Body.List)-1].(*ast.ReturnStmt); isRet {
+				if be, ok := ifs.Cond.(*ast.BinaryExpr); ok && exprNorm(fd, be.X) == "len($0)" {
 					m := &miniEval{pkg: pkg, env: env}
 					if k, ok := m.intOf(be.Y); ok {
-						if _, isRet := ifs.Body.List[len(ifs.Body.List)-1].(*ast.ReturnStmt); isRet {
+						switch be.Op {
+						case token.NEQ:
+							if total >= 0 && total != k {
+								bad = fmt.Sprintf("two different exact lengths are demanded (%d and %d)", total, k)
+							}
 							total = k
+							if k > minLen {
+								minLen = k
+							}
+							continue
+						case token.LSS:
+							if k > minLen {
+								minLen = k
+							}
+							continue
+						case token.LEQ:
+							if k+1 > minLen {
+								minLen = k + 1
+							}
+							continue
 						}
 					}
 				}
 			}
-			if total < 0 {
-				bad = "the function does not start by rejecting every length other than a constant"
-				break
-			}
-			continue
 		}
 		// slices of data in this statement, under the environment before it
 		ast.Inspect(st, func(n ast.Node) bool {
@@ -60,15 +75,15 @@ func C18layout(p *load.Program, run *report.Run) {
 			if sl.Low != nil {
 				lo, ok1 = m.intOf(sl.Low)
 			}
-			hi, ok2 := total, true
+			hi, ok2 := total, total >= 0
 			if sl.High != nil {
 				hi, ok2 = m.intOf(sl.High)
 			}
 			switch {
 			case !ok1 || !ok2:
 				bad = "slice bounds of " + types.ExprString(sl) + " are not constants of the layout: " + m.why
-			case lo < 0 || lo > hi || hi > total:
-				bad = fmt.Sprintf("%s = data[%d:%d] leaves the checked length %d", types.ExprString(sl), lo, hi, total)
+			case lo < 0 || lo > hi || hi > minLen:
+				bad = fmt.Sprintf("%s = data[%d:%d] is taken where the length checks passed so far guarantee only %d bytes: a shorter message makes the slice expression panic", types.ExprString(sl), lo, hi, minLen)
 			case lo != prevHi:
 				bad = fmt.Sprintf("%s starts at %d, the previous part ended at %d", types.ExprString(sl), lo, prevHi)
 			default:
@@ -106,6 +121,8 @@ func C18layout(p *load.Program, run *report.Run) {
 	switch {
 	case bad != "":
 		run.Violate("fixed-layout", key, p.Rel(fd.Pos()), bad, nil)
+	case total < 0:
+		run.Violate("fixed-layout", key, p.Rel(fd.Pos()), "no check rejects every length other than the layout's constant", nil)
 	case prevHi != total:
 		run.Violate("fixed-layout", key, p.Rel(fd.Pos()), fmt.Sprintf("the parts end at %d, the checked length is %d", prevHi, total), nil)
 	default:
